@@ -753,19 +753,22 @@ func (fv *FuncVC) builtinAppend(c *ssa.CallCommon, args []*Val, resT types.Type)
 	// resulting backing array contents
 	narr := fv.fresh("aparr", "(Array Int "+es+")")
 	// in place: base offset off; fresh: offset 0
-	resArr := fv.name("apref", "Int", ite(inplace, "(s.arr "+s.T+")", ref))
-	resOff := fv.name("apoff", "Int", ite(inplace, "(s.off "+s.T+")", "0"))
+	resArr := fv.fresh("apref", "Int")
+	fv.emit(fmt.Sprintf("(assert (= %s %s))", resArr, ite(inplace, "(s.arr "+s.T+")", ref)))
+	resOff := fv.fresh("apoff", "Int")
+	fv.emit(fmt.Sprintf("(assert (= %s %s))", resOff, ite(inplace, "(s.off "+s.T+")", "0")))
 	oldArr := "(select " + h + " (s.arr " + s.T + "))"
-	// elements: existing prefix preserved, appended elements, rest unchanged when in place
-	fv.emit(fmt.Sprintf("(assert (forall ((j Int)) (! (=> (and (<= 0 j) (< j (s.len %s))) (= (select %s (+ %s j)) (select %s (+ (s.off %s) j)))) :pattern ((select %s (+ %s j))))))",
-		s.T, narr, resOff, oldArr, s.T, narr, resOff))
+	// elements (absolute index j into the resulting backing array): existing prefix preserved, then the
+	// appended elements; when in place everything outside the appended range is unchanged
+	fv.emit(fmt.Sprintf("(assert (forall ((j Int)) (! (=> (and (<= %s j) (< j (+ %s (s.len %s)))) (= (select %s j) (select %s (+ (s.off %s) (- j %s))))) :pattern ((select %s j)))))",
+		resOff, resOff, s.T, narr, oldArr, s.T, resOff, narr))
 	if c1, ok := constOfTerm(tlen); ok && c1 <= 4 {
 		for j := int64(0); j < c1; j++ {
 			fv.emit(fmt.Sprintf("(assert (= (select %s (+ %s (s.len %s) %d)) %s))", narr, resOff, s.T, j, telem(fmt.Sprintf("%d", j))))
 		}
 	} else {
-		fv.emit(fmt.Sprintf("(assert (forall ((j Int)) (! (=> (and (<= 0 j) (< j %s)) (= (select %s (+ %s (s.len %s) j)) %s)) :pattern ((select %s (+ %s (s.len %s) j))))))",
-			tlen, narr, resOff, s.T, telem("j"), narr, resOff, s.T))
+		fv.emit(fmt.Sprintf("(assert (forall ((j Int)) (! (=> (and (<= (+ %s (s.len %s)) j) (< j (+ %s %s))) (= (select %s j) %s)) :pattern ((select %s j)))))",
+			resOff, s.T, resOff, newLen, narr, telem(fmt.Sprintf("(- j (+ %s (s.len %s)))", resOff, s.T)), narr))
 	}
 	// in place: all indices outside [off+len, off+newLen) keep old contents
 	fv.emit(fmt.Sprintf("(assert (=> %s (forall ((j Int)) (! (=> (or (< j (+ (s.off %s) (s.len %s))) (>= j (+ (s.off %s) %s))) (= (select %s j) (select %s j))) :pattern ((select %s j))))))",
